@@ -113,7 +113,12 @@ class Resolver:
             elif isinstance(el, str):
                 e = ("field", e, "<%s>" % el)
             elif "f" in el:
-                e = ("field", e, el["f"])
+                if e == ("env",) or (e[0] == "deref" and e[1] == ("env",)):
+                    ups = self.fn.rec.get("upvars") or []
+                    i = el.get("i", 0)
+                    e = ("upvar", ups[i] if i < len(ups) else str(i))
+                else:
+                    e = ("field", e, el["f"])
             elif "downcast" in el:
                 e = ("downcast", e, el["downcast"])
             elif "index" in el:
@@ -136,6 +141,9 @@ class Resolver:
                 if fn.kind != "Fn" and fn.kind != "AssocFn" and l == 1:
                     return ("env",)
                 return ("param", l)
+        if fn.has_partial_defs(l):
+            # written field-by-field somewhere: opaque storage, rules look at the stores explicitly
+            return ("local", l)
         sd = fn.single_def(l)
         if sd is not None:
             key = ("sd", l)
@@ -175,12 +183,37 @@ class Resolver:
         return ("unknown", kind)
 
     def call_expr(self, t, b, depth=0):
-        args = [self.operand(a, (b, "term"), depth + 1) for a in t["args"]]
         name = t.get("resolved") or t.get("callee")
+        if name and name.endswith("box_assume_init_into_vec_unsafe"):
+            v = self._vec_macro(t, b, depth)
+            if v is not None:
+                return v
+        args = [self.operand(a, (b, "term"), depth + 1) for a in t["args"]]
         if name is None:
             name = "<indirect>"
             args = [self.operand(t["callee_op"], (b, "term"), depth + 1)] + args
         return ("call", name, args, (self.fn.key, b), t.get("callee"))
+
+    def _vec_macro(self, t, b, depth):
+        """`vec![a, b]` lowers to Box::new_uninit + `(*box).value.value.0 = [a, b]` +
+        box_assume_init_into_vec_unsafe(box): recover the element list."""
+        fn = self.fn
+        p = op_place(t["args"][0])
+        seen = set()
+        while p is not None and is_plain_local(p) and p["l"] not in seen:
+            l = p["l"]
+            seen.add(l)
+            for bb, i, st in fn.assigns():
+                d = st["dst"]
+                if d["l"] == l and d.get("p") and d["p"][0] == "deref" and st["rv"]["k"] == "agg" and st["rv"]["ak"] == "array":
+                    elems = [self.operand(o, (bb, i), depth + 1) for o in st["rv"]["ops"]]
+                    return ("call", "vec!", [("array", elems)], (fn.key, b), "vec!")
+            sd = [x for x in fn.defs().get(l, []) if x[2] == "assign"]
+            if len(sd) != 1:
+                return None
+            rv = fn.blocks[sd[0][0]]["stmts"][sd[0][1]]["rv"]
+            p = op_place(rv["op"]) if rv["k"] == "use" else None
+        return None
 
     def rvalue(self, rv, at, depth=0):
         k = rv["k"]
@@ -224,6 +257,10 @@ def simplify(e):
         return e[1][1]
     if k == "field":
         base = e[1]
+        if e[2] == "0" and base[0] == "downcast" and base[2] == "Ready" and base[1][0] == "call" \
+                and (base[1][4] or base[1][1]).endswith("Future::poll") and base[1][2]:
+            # `x.await`: ((poll(Pin::new_unchecked(&mut into_future(x)), cx) as Ready).0)
+            return ("await", peel(base[1][2][0]))
         if base[0] == "agg":
             for f, v in base[3]:
                 if f == e[2]:
@@ -279,6 +316,9 @@ def path_str(e):
         elif k == "env":
             parts.append("env")
             break
+        elif k == "upvar":
+            parts.append("^" + e[1])
+            break
         elif k == "local":
             parts.append("_%d" % e[1])
             break
@@ -300,6 +340,10 @@ def show(e, depth=0):
         return "param%d" % e[1]
     if k == "env":
         return "env"
+    if k == "upvar":
+        return "^" + e[1]
+    if k == "await":
+        return "await(%s)" % show(e[1], depth + 1)
     if k in ("local", "loop", "uninit"):
         return "%s_%d" % (k[0], e[1])
     if k == "field":
@@ -347,7 +391,7 @@ def walk(e):
     """all sub-expressions (pre-order)."""
     yield e
     k = e[0]
-    if k in ("field", "deref", "ref", "downcast", "un", "cast", "discr", "repeat"):
+    if k in ("field", "deref", "ref", "downcast", "un", "cast", "discr", "repeat", "await"):
         yield from walk(e[1] if k != "un" else e[2])
     elif k == "index":
         yield from walk(e[1])
@@ -799,6 +843,8 @@ def strip_refs(e):
         return ("un", e[1], strip_refs(e[2]))
     if k == "cast":
         return ("cast", strip_refs(e[1]), e[2])
+    if k == "await":
+        return ("await", strip_refs(e[1]))
     if k == "const":
         return ("const", e[1], e[2])
     if k in ("tuple", "array", "phi"):
@@ -814,3 +860,77 @@ def same(e1, e2):
     if p1 is not None or p2 is not None:
         return p1 == p2
     return strip_refs(e1) == strip_refs(e2)
+
+
+def true_alternatives(fn, res=None, conds=None, local=0, want=True):
+    """For a bool-valued local (default: the return place) list, per assignment that may store
+    `want`, the facts known to hold there: facts of individually dominating edges + the facts
+    implied by the stored expression being `want`.  [(block, [facts])]"""
+    res = res or Resolver(fn)
+    conds = conds or Conds(fn, res)
+    out = []
+    for d in fn.defs().get(local, []):
+        if d[2] == "partial":
+            continue
+        b = d[0]
+        if b not in fn.reachable(0):
+            continue
+        e = res._def_expr(d, 0)
+        pe = peel(e)
+        if pe[0] == "const" and pe[2] is not None and bool(pe[2]) != want:
+            continue
+        facts = list(conds.facts_on_all_paths(b))
+        if pe[0] != "const":
+            facts += bool_facts(e, want, fn.prog)
+        out.append((b, facts))
+    return out
+
+
+def has_fact(facts, pred):
+    return any(_fact_match(f, pred) for f in facts)
+
+
+def returns(fn):
+    return [b for b in fn.live_blocks() if fn.term(b) and fn.term(b)["k"] == "return" and b in fn.reachable(0)]
+
+
+def return_exprs(fn, res=None):
+    """resolved expressions stored into _0 (one per whole assignment)."""
+    res = res or Resolver(fn)
+    out = []
+    for d in fn.defs().get(0, []):
+        if d[2] != "partial" and d[0] in fn.reachable(0):
+            out.append((d[0], res._def_expr(d, 0)))
+    return out
+
+
+def last_field(e):
+    """name of the outermost field projection of a (peeled) expression, or None."""
+    e = peel(e)
+    return e[2] if e[0] == "field" else None
+
+
+def value_holders(fn, res, is_value, ty_substr):
+    """Locals that own a value identified by is_value(resolved expr) (e.g. a lock guard), after
+    following whole-local moves: returns the final holders (locals the value is not moved out of).
+    A `drop` of a moved-from intermediate is a no-op and must not be mistaken for a release."""
+    cands = []
+    for l in range(len(fn.locals)):
+        ty = fn.local_ty(l)
+        if ty_substr not in ty or ty.startswith("&") or "Poll<" in ty or "Future" in ty or "Pin<" in ty:
+            continue
+        if fn.single_def(l) is None:
+            continue
+        if is_value(res.local(l, (0, 0))):
+            cands.append(l)
+    moved_from = set()
+    for b, i, st in fn.assigns():
+        rv = st["rv"]
+        if rv["k"] == "use" and "move" in rv["op"] and is_plain_local(rv["op"]["move"]) and rv["op"]["move"]["l"] in cands \
+                and is_plain_local(st["dst"]):
+            moved_from.add(rv["op"]["move"]["l"])
+    return [l for l in cands if l not in moved_from], sorted(moved_from)
+
+
+def drops_of(fn, l):
+    return [b for b in fn.live_blocks() if fn.term(b)["k"] == "drop" and fn.term(b)["place"] == {"l": l}]
